@@ -151,11 +151,10 @@ def check_common_values(ctx):
     prog = ctx.prog
     site = "verif.data.Data._get_common_indices"
     m = prog.module("verif.data")
-    ev = trace.trace(prog, site)
-    av = [a for a in trace.assigns(ev, "available_values") if not a["loops"] and isinstance(a["value"], Rat)]
-    ctx.need(av, "%s: available_values not found" % site)
-    final = av[-1]["value"]
-    loc = prog.loc(m, av[-1]["node"])
+    from . import c02
+    final, ev = c02.common_values(prog, "Time")
+    ctx.need(final is not None, "%s: the list of common values was not found in the index lookup" % site)
+    loc = prog.loc(m, prog.func(site))
     # NaN filter on top of a sort
     g = q.top(final, "getitem")
     nanfilter = g is not None and isinstance(g.args[1], Rat) and g.args[1].equals(form.apply("cmp_eq", [form.apply("isnan", [g.args[0]]), Rat.const(0)]))
